@@ -806,7 +806,7 @@ class Text(JupyterMixin):
                 self._text.append(text.plain)
                 self._spans.extend(
                     _Span(start + text_length, end + text_length, style)
-                    for start, end, style in text._spans
+                    for start, end, style in text._spans[:]
                 )
                 self._length += len(text)
         return self
@@ -825,7 +825,7 @@ class Text(JupyterMixin):
         self._text.append(text.plain)
         self._spans.extend(
             _Span(start + text_length, end + text_length, style)
-            for start, end, style in text._spans
+            for start, end, style in text._spans[:]
         )
         self._length += len(text)
         return self
